@@ -11,6 +11,7 @@ import PqlModel.Props.C05Parsed
 import PqlModel.Props.C11Compile
 import PqlModel.Props.C02EndToEndSource
 import PqlModel.Props.C02SplitImperative
+import PqlModel.Props.C02ProgramNames
 #print axioms Pql.C03.C03_bare_key_rewrite
 #print axioms Pql.C03.C03_quoted_key_not_rewritten
 #print axioms Pql.C03.C03_two_conditions_anded
